@@ -32,6 +32,10 @@ func (self ValueObject) Display() (string, *Interrupt) {
 func (self ValueObject) IsEqual(other Value) (bool, *Interrupt) {
 	otherObj := other.(ValueObject)
 
+	if len(self.FieldsInternal) != len(otherObj.FieldsInternal) {
+		return false, nil
+	}
+
 	for key, value := range self.FieldsInternal {
 		otherValue, found := otherObj.FieldsInternal[key]
 		if !found {
